@@ -1,6 +1,7 @@
 import BfeVerif.C32.ClassProofs
 import BfeVerif.C32.TotalProofs
 import BfeVerif.C32.ChunkProofs
+import BfeVerif.C32.MetaProofs
 /-!
   C32 — HTTP/2 frames round-trip and malformed frames are rejected.  Property theorems only.
 
@@ -958,6 +959,27 @@ theorem C32_big_sized (kind : String) (n pl : Nat) (w : W) (h : mkBig kind n pl 
               split at h
               · rename_i hk; injection h with h; subst h; simp [hD, hH, hU, hG, hk, wPayloadLen]
               · cases h
+
+/-- **C32 (readMetaFrame, CONTINUATION assembly)**: with `ReadMetaHeaders` set, the frame that
+    `readMetaFrame` reads while a header block is open is always a CONTINUATION of that block — the type
+    assertion `f.(*ContinuationFrame)` cannot fail — for every framer/decoder state and every input. -/
+theorem C32_meta_no_panic (cfg : MetaCfg) (mf : MFramer) (inp : Bytes) :
+    (readFrameM cfg mf inp).1 ≠ .panic :=
+  readFrameM_no_panic cfg mf inp
+
+/-- inside an open header block `ReadFrame` returns nothing but a CONTINUATION, and the block stays
+    open until one carries END_HEADERS (what `metaLoop` relies on to concatenate the fragments in order) -/
+theorem C32_meta_block_frames (fr fr' : Framer) (inp rest : Bytes) (f : Frame)
+    (hopen : fr.lastHeaderStream ≠ 0) (h : readFrame fr inp = (.ok f, fr', rest)) :
+    ∃ fh frag, f = .continuation fh frag ∧ (hasFlag fh.flags 4 = false → fr'.lastHeaderStream ≠ 0) :=
+  readFrame_in_block fr fr' inp rest f hopen h
+
+/-- **C32 (MaxHeaderListSize)**: the fields of every MetaHeadersFrame returned have a total size
+    (name + value + 32 octets each, RFC 7540 6.5.2) of at most `MaxHeaderListSize`. -/
+theorem C32_meta_list_size (cfg : MetaCfg) (mf mf' : MFramer) (inp rest : Bytes) (fh : FH) (pr : Prio)
+    (fs : List Field) (t : Bool) (hc : cfg.maxList ≠ 0)
+    (h : readFrameM cfg mf inp = (.mh fh pr fs t, mf', rest)) : sumSize fs ≤ cfg.maxList :=
+  readFrameM_list_size cfg mf mf' inp rest fh pr fs t hc h
 
 /-! Non-vacuity -/
 example : expectRT (.headers 3 true false 2 ⟨1, true, 200⟩ [1, 2, 3]) =
